@@ -151,7 +151,7 @@ def tlc(module, cfg_text, wd, name=None, workers=None, timeout=900, extra=(), du
         r.violated = "temporal"
     elif "Error: Deadlock reached" in p.stdout:
         r.violated = "deadlock"
-    elif "Error: The postcondition" in p.stdout or "Postcondition" in p.stdout and "violated" in p.stdout:
+    elif re.search(r"Postcondition \S+ .*is false", p.stdout, re.S) or "Error: The postcondition" in p.stdout:
         r.violated = "postcondition"
     elif "Model checking completed. No error has been found." in p.stdout or \
             (simulate and p.returncode == 0):
